@@ -218,13 +218,48 @@ def solveStart {n p m : Nat} (s : Solver K n p m) (perm : Vector (Fin (n + p + m
   let kkt0 : KKT K n p m := if !s.kktInitState then kktScal e s.kkt w0 info0.rho info0.delta else s.kkt
   (w0, kkt0, info0)
 
-/-- the initial point (one KKT solve, Mehrotra-style shift into the cone) and the loop state the main loop starts from -/
-def initialPoint {n p m : Nat} (s : Solver K n p m) (e : Env K n p m) (w0 : Work K n p m) (kkt1 : KKT K n p m)
-    (info1 : Info K) (refineOn : Bool) : LoopState K n p m :=
+/-- the shifts `(δ_s, δ_z)` of the Mehrotra-style initial point (`max(0, -1.5·min)` over the three cone blocks) and the
+    complementarity product of the shifted point -/
+def mehrotraShift {n p m : Nat} (d : Data K n p m) (w : Work K n p m) : K × K × K :=
+  let nl := d.lb.cnt
+  let nu := d.ub.cnt
+  let dS0 : K := 0
+  let dS1 := if m ≠ 0 then vmax dS0 (-cs.c1_5 * minFin (w.s.getD 0 0) m fun i => w.s[i]) else dS0
+  let dS2 := if nl ≠ 0 then vmax dS1 (-cs.c1_5 * minHead (w.s_lb.getD 0 0) nl w.s_lb) else dS1
+  let dS := if nu ≠ 0 then vmax dS2 (-cs.c1_5 * minHead (w.s_ub.getD 0 0) nu w.s_ub) else dS2
+  let dZ0 : K := 0
+  let dZ1 := if m ≠ 0 then vmax dZ0 (-cs.c1_5 * minFin (w.z.getD 0 0) m fun i => w.z[i]) else dZ0
+  let dZ2 := if nl ≠ 0 then vmax dZ1 (-cs.c1_5 * minHead (w.z_lb.getD 0 0) nl w.z_lb) else dZ1
+  let dZ := if nu ≠ 0 then vmax dZ2 (-cs.c1_5 * minHead (w.z_ub.getD 0 0) nu w.z_ub) else dZ2
+  let tp0 := sumFin m fun i => (w.s[i] + dS) * (w.z[i] + dZ)
+  let tp1 := tp0 + sumFin n fun i => if i.val < nl then (w.s_lb[i] + dS) * (w.z_lb[i] + dZ) else 0
+  let tp := tp1 + sumFin n fun i => if i.val < nu then (w.s_ub[i] + dS) * (w.z_ub[i] + dZ) else 0
+  (dS, dZ, tp)
+
+/-- the initial slacks and multipliers after the second, product-balancing shift -/
+def mehrotraApply {n p m : Nat} (d : Data K n p m) (w : Work K n p m) : Work K n p m :=
+  let nl := d.lb.cnt
+  let nu := d.ub.cnt
+  let dS := (mehrotraShift cs d w).1
+  let dZ := (mehrotraShift cs d w).2.1
+  let tp := (mehrotraShift cs d w).2.2
+  let cnt : K := ((m + nl + nu : Nat) : K)
+  let dSbar := dS + (cs.c0_5 * tp) / (Vec.sum w.z + sumHead nl w.z_lb + sumHead nu w.z_ub + cnt * dZ)
+  let dZbar := dZ + (cs.c0_5 * tp) / (Vec.sum w.s + sumHead nl w.s_lb + sumHead nu w.s_ub + cnt * dS)
+  let wA2 : Work K n p m :=
+    { w with s := Vector.ofFn fun i => w.s[i] + dSbar,
+               s_lb := d.lb.headUpd w.s_lb fun i => w.s_lb[i] + dSbar,
+               s_ub := d.ub.headUpd w.s_ub fun i => w.s_ub[i] + dSbar,
+               z := Vector.ofFn fun i => w.z[i] + dZbar,
+               z_lb := d.lb.headUpd w.z_lb fun i => w.z_lb[i] + dZbar,
+               z_ub := d.ub.headUpd w.z_ub fun i => w.z_ub[i] + dZbar }
+  wA2
+
+/-- the iterate after the initial KKT solve and, if all slacks came out tiny, the reset to `0.1` — before the shifts -/
+def ipBeforeShift {n p m : Nat} (s : Solver K n p m) (e : Env K n p m) (w0 : Work K n p m) (kkt1 : KKT K n p m)
+    (refineOn : Bool) : Work K n p m :=
   let st := s.st
   let d := s.data
-  let info2 := { info1 with factorRetires := 0 }
-  -- initial point
   let rhs : Step K n p m :=
     { x := Vector.ofFn fun i => -d.c[i], y := d.b, z := d.h, z_lb := d.lb.val, z_ub := d.ub.val,
       s := Vec.const m 0, s_lb := Vec.const n 0, s_ub := Vec.const n 0 }
@@ -237,39 +272,24 @@ def initialPoint {n p m : Nat} (s : Solver K n p m) (e : Env K n p m) (w0 : Work
               r := { w0.r with x := rhs.x, s := rhs.s, s_lb := rhs.s_lb, s_ub := rhs.s_ub } }
   let nl := d.lb.cnt
   let nu := d.ub.cnt
-  let (wB, info3) : Work K n p m × Info K :=
-    if m + nl + nu ≠ 0 then
-      let sNorm := vmax (vmax (vmax 0 (Vec.infNorm wA.s)) (headInfNorm nl wA.s_lb)) (headInfNorm nu wA.s_ub)
-      let wA1 : Work K n p m :=
-        if sNorm ≤ cs.c1e_4 then
-          { wA with s := Vec.const m cs.c0_1, s_lb := d.lb.headUpd wA.s_lb fun _ => cs.c0_1,
-                    s_ub := d.ub.headUpd wA.s_ub fun _ => cs.c0_1,
-                    z := Vec.const m cs.c0_1, z_lb := d.lb.headUpd wA.z_lb fun _ => cs.c0_1,
-                    z_ub := d.ub.headUpd wA.z_ub fun _ => cs.c0_1 }
-        else wA
-      let dS0 : K := 0
-      let dS1 := if m ≠ 0 then vmax dS0 (-cs.c1_5 * minFin (wA1.s.getD 0 0) m fun i => wA1.s[i]) else dS0
-      let dS2 := if nl ≠ 0 then vmax dS1 (-cs.c1_5 * minHead (wA1.s_lb.getD 0 0) nl wA1.s_lb) else dS1
-      let dS := if nu ≠ 0 then vmax dS2 (-cs.c1_5 * minHead (wA1.s_ub.getD 0 0) nu wA1.s_ub) else dS2
-      let dZ0 : K := 0
-      let dZ1 := if m ≠ 0 then vmax dZ0 (-cs.c1_5 * minFin (wA1.z.getD 0 0) m fun i => wA1.z[i]) else dZ0
-      let dZ2 := if nl ≠ 0 then vmax dZ1 (-cs.c1_5 * minHead (wA1.z_lb.getD 0 0) nl wA1.z_lb) else dZ1
-      let dZ := if nu ≠ 0 then vmax dZ2 (-cs.c1_5 * minHead (wA1.z_ub.getD 0 0) nu wA1.z_ub) else dZ2
-      let tp0 := sumFin m fun i => (wA1.s[i] + dS) * (wA1.z[i] + dZ)
-      let tp1 := tp0 + sumFin n fun i => if i.val < nl then (wA1.s_lb[i] + dS) * (wA1.z_lb[i] + dZ) else 0
-      let tp := tp1 + sumFin n fun i => if i.val < nu then (wA1.s_ub[i] + dS) * (wA1.z_ub[i] + dZ) else 0
-      let cnt : K := ((m + nl + nu : Nat) : K)
-      let dSbar := dS + (cs.c0_5 * tp) / (Vec.sum wA1.z + sumHead nl wA1.z_lb + sumHead nu wA1.z_ub + cnt * dZ)
-      let dZbar := dZ + (cs.c0_5 * tp) / (Vec.sum wA1.s + sumHead nl wA1.s_lb + sumHead nu wA1.s_ub + cnt * dS)
-      let wA2 : Work K n p m :=
-        { wA1 with s := Vector.ofFn fun i => wA1.s[i] + dSbar,
-                   s_lb := d.lb.headUpd wA1.s_lb fun i => wA1.s_lb[i] + dSbar,
-                   s_ub := d.ub.headUpd wA1.s_ub fun i => wA1.s_ub[i] + dSbar,
-                   z := Vector.ofFn fun i => wA1.z[i] + dZbar,
-                   z_lb := d.lb.headUpd wA1.z_lb fun i => wA1.z_lb[i] + dZbar,
-                   z_ub := d.ub.headUpd wA1.z_ub fun i => wA1.z_ub[i] + dZbar }
-      (wA2, { info2 with mu := muOf d wA2 })
-    else (wA, info2)
+  if m + nl + nu ≠ 0 then
+    let sNorm := vmax (vmax (vmax 0 (Vec.infNorm wA.s)) (headInfNorm nl wA.s_lb)) (headInfNorm nu wA.s_ub)
+    if sNorm ≤ cs.c1e_4 then
+      { wA with s := Vec.const m cs.c0_1, s_lb := d.lb.headUpd wA.s_lb fun _ => cs.c0_1,
+                s_ub := d.ub.headUpd wA.s_ub fun _ => cs.c0_1,
+                z := Vec.const m cs.c0_1, z_lb := d.lb.headUpd wA.z_lb fun _ => cs.c0_1,
+                z_ub := d.ub.headUpd wA.z_ub fun _ => cs.c0_1 }
+    else wA
+  else wA
+
+/-- the initial point (one KKT solve, Mehrotra-style shift into the cone) and the loop state the main loop starts from -/
+def initialPoint {n p m : Nat} (s : Solver K n p m) (e : Env K n p m) (w0 : Work K n p m) (kkt1 : KKT K n p m)
+    (info1 : Info K) (refineOn : Bool) : LoopState K n p m :=
+  let d := s.data
+  let info2 := { info1 with factorRetires := 0 }
+  let wA1 := ipBeforeShift cs s e w0 kkt1 refineOn
+  let wB : Work K n p m := if m + d.lb.cnt + d.ub.cnt ≠ 0 then mehrotraApply cs d wA1 else wA1
+  let info3 : Info K := if m + d.lb.cnt + d.ub.cnt ≠ 0 then { info2 with mu := muOf d wB } else info2
   let wC : Work K n p m :=
     { wB with zeta := wB.x, lambda := wB.y, nu := wB.z,
               nu_lb := d.lb.headUpd wB.nu_lb fun i => wB.z_lb[i],
